@@ -12,7 +12,7 @@ EXPLANATION = (
     'the tuple of roots/fingerprints is consistent on both comparison edges; (R3) the conflict-copy name, evaluated symbolically from the values appended to it (format!, several pushes, a helper - any spelling), is rel + ".conflict-" + host + "-" + hex(loser digest) [+ "." + counter], the digest shown is that of the side whose bytes are copied there, '
     'and the digest helper prints the first 6 bytes as 2-digit lower hex; (R4) every arm records in `common` the fingerprint of what it left at rel '
     '(and the loser at the loser name), deletes remove the entry; (R5) the archive saved is exactly that map, with the epoch bumped, at the path '
-    'that was loaded; (R6) = C02.R5 no stale base entries; (R7) mirror symmetry and Noop on a=b=base from the C18 table; (R8) fingerprint_path hashes '
+    'that was loaded; the recorded map never lets a trusted-base entry override the fingerprint just scanned (fresh.chain(base) collected into a map is reported); (R6) = C02.R5 no stale base entries; (R7) mirror symmetry and Noop on a=b=base from the C18 table; (R8) fingerprint_path hashes '
     'only the bytes of the file (or the link target) and takes the type from symlink_metadata; (R9) a failed delete is not recorded as done; (R10) every non-dry-run Ok return of run_bisync passes Archive::save, so a run that reports success has recorded the state it left; (R11) = C02.R8 the applied plan is the value reconcile() returned. '
     'Not decided: convergence and idempotence as behaviours (paper argument from R4-R7 + C18).')
 ASSUMPTIONS = ['BLAKE3 collision freeness', 'BTreeMap API semantics']
